@@ -8,6 +8,7 @@ mod exec;
 mod fam;
 mod l0;
 mod rec;
+mod sources;
 mod sweep;
 
 use std::io::Write;
@@ -40,6 +41,11 @@ fn main() {
                 std::process::exit(3)
             });
             sweep::emit_case(&mut out, "replay", &c, true).expect("write");
+        }
+        "sources" => {
+            let seed: u64 = args.get(2).and_then(|s| s.parse().ok()).unwrap_or(1);
+            let only = args.get(3).cloned().unwrap_or_default();
+            sources::run(&mut out, seed, &only).expect("write");
         }
         "sweep" => {
             let prop = args.get(2).cloned().unwrap_or_default();
